@@ -1053,9 +1053,11 @@ def expand_named_conditions(func: ast.FunctionDef, keep=frozenset()) -> ast.Func
     params = {a.arg for a in ast.walk(func) if isinstance(a, ast.arg)}
 
     def is_test(e):
-        if not isinstance(e, (ast.Compare, ast.BoolOp)) and not (isinstance(e, ast.UnaryOp) and isinstance(e.op, ast.Not)):
-            return False
-        return not any(isinstance(n, (ast.Call, ast.NamedExpr, ast.Await, ast.Lambda, ast.Subscript)) for n in ast.walk(e))
+        """a boolean test over names / attributes / constants, or any call-free arithmetic over names,
+        attributes and constant-key subscripts (the extra conditions below cover what those read)"""
+        if isinstance(e, (ast.Name, ast.Constant, ast.Attribute, ast.Tuple, ast.List, ast.Dict, ast.Set)):
+            return False  # plain aliases / containers are handled elsewhere (identity matters for containers)
+        return not any(isinstance(n, (ast.Call, ast.NamedExpr, ast.Await, ast.Lambda, ast.Yield, ast.YieldFrom, ast.ListComp, ast.DictComp, ast.SetComp, ast.GeneratorExp, ast.List, ast.Dict, ast.Set, ast.Starred)) or (isinstance(n, ast.Subscript) and not isinstance(n.slice, ast.Constant)) for n in ast.walk(e))
 
     changed = False
 
@@ -1072,8 +1074,19 @@ def expand_named_conditions(func: ast.FunctionDef, keep=frozenset()) -> ast.Func
                 name = st.targets[0].id
                 rest = stmts[i + 1 :]
                 reads = {n.id for n in ast.walk(st.value) if isinstance(n, ast.Name)}
-                attr_roots = {norm(n) for n in ast.walk(st.value) if isinstance(n, ast.Attribute)}
-                rebound = any(isinstance(n, ast.Name) and isinstance(n.ctx, ast.Store) and n.id in reads for x in rest for n in ast.walk(x))
+                attr_roots = {norm(n) for n in ast.walk(st.value) if isinstance(n, (ast.Attribute, ast.Subscript))}
+                # an object read through an attribute / item may be changed by a call that receives it
+                roots = set()
+                for n in ast.walk(st.value):
+                    if isinstance(n, (ast.Attribute, ast.Subscript)):
+                        b = n
+                        while isinstance(b, (ast.Attribute, ast.Subscript)):
+                            b = b.value
+                        if isinstance(b, ast.Name):
+                            roots.add(b.id)
+                last_use = max((j for j, x in enumerate(rest) if any(isinstance(n, ast.Name) and n.id == name for n in ast.walk(x))), default=-1)
+                handed = any(isinstance(c, ast.Call) and any(isinstance(n, ast.Name) and n.id in roots for a in list(c.args) + [k.value for k in c.keywords] + [c.func] for n in ast.walk(a)) for x in rest[:last_use] for c in ast.walk(x))
+                rebound = handed or any(isinstance(n, ast.Subscript) and isinstance(n.ctx, (ast.Store, ast.Del)) and (norm(n) in attr_roots or norm(n.value) in {norm(a.value) for a in ast.walk(st.value) if isinstance(a, ast.Subscript)}) for x in rest for n in ast.walk(x)) or any(isinstance(n, ast.Name) and isinstance(n.ctx, ast.Store) and n.id in reads for x in rest for n in ast.walk(x))
                 attr_store = any(isinstance(n, ast.Attribute) and isinstance(n.ctx, ast.Store) and norm(n) in attr_roots for x in rest for n in ast.walk(x))
                 loads_rest = sum(1 for x in rest for n in ast.walk(x) if isinstance(n, ast.Name) and n.id == name and isinstance(n.ctx, ast.Load))
                 loads_all = sum(1 for n in ast.walk(func) if isinstance(n, ast.Name) and n.id == name and isinstance(n.ctx, ast.Load))
@@ -1292,9 +1305,14 @@ def inline_new_single_use_locals(func: ast.FunctionDef, keep=frozenset()) -> ast
                 loads[n.id] = loads.get(n.id, 0) + 1
         for block in _blocks(new):
             for i in range(len(block) - 1):
-                st, nxt = block[i], block[i + 1]
+                st = block[i]
                 if not (isinstance(st, ast.Assign) and len(st.targets) == 1 and isinstance(st.targets[0], ast.Name)):
                     continue
+                # statements that bind a constant to another name may sit between the binding and its use
+                j = i + 1
+                while j < len(block) - 1 and isinstance(block[j], ast.Assign) and len(block[j].targets) == 1 and isinstance(block[j].targets[0], ast.Name) and isinstance(block[j].value, ast.Constant) and block[j].targets[0].id != st.targets[0].id and not any(isinstance(n, ast.Name) and n.id == block[j].targets[0].id for n in ast.walk(st.value)):
+                    j += 1
+                nxt = block[j]
                 name = st.targets[0].id
                 if name in keep or name in params or counts.get(name) != 1 or loads.get(name) != 1:
                     continue
@@ -1358,7 +1376,7 @@ def inline_new_single_use_locals(func: ast.FunctionDef, keep=frozenset()) -> ast
                         return n
 
                 if scope is nxt:
-                    block[i + 1] = Sub().visit(nxt)
+                    block[j] = Sub().visit(nxt)
                 elif isinstance(nxt, ast.For):
                     nxt.iter = Sub().visit(nxt.iter)
                 else:
@@ -1392,6 +1410,144 @@ def guard_continue_to_else(func: ast.FunctionDef) -> ast.FunctionDef:
     for n in ast.walk(new):
         if isinstance(n, (ast.For, ast.While)):
             n.body = fix(n.body)
+    return ast.fix_missing_locations(new) if changed else func
+
+
+def canon_ifexp_not(func: ast.FunctionDef) -> ast.FunctionDef:
+    """``a if not c else b``  ->  ``b if c else a``."""
+    import copy as _copy
+
+    if not any(isinstance(n, ast.IfExp) and isinstance(n.test, ast.UnaryOp) and isinstance(n.test.op, ast.Not) for n in ast.walk(func)):
+        return func
+
+    class T(ast.NodeTransformer):
+        def visit_IfExp(self, n):  # noqa: N802
+            self.generic_visit(n)
+            if isinstance(n.test, ast.UnaryOp) and isinstance(n.test.op, ast.Not):
+                return ast.copy_location(ast.IfExp(test=n.test.operand, body=n.orelse, orelse=n.body), n)
+            return n
+
+    return ast.fix_missing_locations(T().visit(_copy.deepcopy(func)))
+
+
+def expand_starred_tuple_args(func: ast.FunctionDef, keep=frozenset()) -> ast.FunctionDef:
+    """``t = (a, b, c)`` (a new local bound once to a tuple of names / attributes / constants that are
+    not re-bound afterwards) used only as ``*t`` in calls: the elements are written out at the calls."""
+    import copy as _copy
+
+    counts = _store_counts(func)
+    defs = {}
+    for block in _blocks(func):
+        for st in block:
+            if isinstance(st, ast.Assign) and len(st.targets) == 1 and isinstance(st.targets[0], ast.Name) and isinstance(st.value, ast.Tuple) and all(isinstance(e, (ast.Name, ast.Constant)) or (isinstance(e, ast.Attribute) and isinstance(e.value, ast.Name)) for e in st.value.elts):
+                name = st.targets[0].id
+                if name in keep or counts.get(name) != 1:
+                    continue
+                loads = [n for n in ast.walk(func) if isinstance(n, ast.Name) and n.id == name and isinstance(n.ctx, ast.Load)]
+                starred = [n for n in ast.walk(func) if isinstance(n, ast.Starred) and isinstance(n.value, ast.Name) and n.value.id == name]
+                in_calls = [c for c in ast.walk(func) if isinstance(c, ast.Call) and any(a in starred for a in c.args)]
+                if not loads or len(loads) != len(starred) or sum(sum(1 for a in c.args if a in starred) for c in in_calls) != len(starred):
+                    continue
+                elems = {n.id for e in st.value.elts for n in ast.walk(e) if isinstance(n, ast.Name)}
+                if any(counts.get(x, 0) > 0 and x not in {a.arg for a in ast.walk(func) if isinstance(a, ast.arg)} and counts.get(x, 0) > 1 for x in elems):
+                    continue
+                defs[name] = st.value
+    if not defs:
+        return func
+
+    class T(ast.NodeTransformer):
+        def visit_Call(self, c):  # noqa: N802
+            self.generic_visit(c)
+            args = []
+            for a in c.args:
+                if isinstance(a, ast.Starred) and isinstance(a.value, ast.Name) and a.value.id in defs:
+                    args.extend(_copy.deepcopy(e) for e in defs[a.value.id].elts)
+                else:
+                    args.append(a)
+            c.args = args
+            return c
+
+        def visit_Assign(self, n):  # noqa: N802
+            if len(n.targets) == 1 and isinstance(n.targets[0], ast.Name) and n.targets[0].id in defs:
+                return None
+            return self.generic_visit(n)
+
+    return ast.fix_missing_locations(T().visit(_copy.deepcopy(func)))
+
+
+def unroll_const_table_dispatch(func: ast.FunctionDef, tables: dict) -> ast.FunctionDef:
+    """``for a, b in TABLE: if test(a): S(b); break`` over a module-level constant tuple of tuples
+    (``tables``: name -> Tuple node) -> the if / elif chain it abbreviates (first match wins)."""
+    import copy as _copy
+
+    changed = False
+    new = _copy.deepcopy(func)
+    for block in _blocks(new):
+        for k, st in enumerate(block):
+            if not (isinstance(st, ast.For) and not st.orelse and isinstance(st.iter, ast.Name) and st.iter.id in tables and len(st.body) == 1 and isinstance(st.body[0], ast.If) and not st.body[0].orelse and st.body[0].body and isinstance(st.body[0].body[-1], ast.Break)):
+                continue
+            rows = tables[st.iter.id].elts
+            tg = st.target.elts if isinstance(st.target, ast.Tuple) else [st.target]
+            if not all(isinstance(t, ast.Name) for t in tg) or not all((isinstance(r, ast.Tuple) and len(r.elts) == len(tg)) or len(tg) == 1 for r in rows):
+                continue
+            inner = st.body[0]
+            if any(isinstance(n, (ast.Break, ast.Continue)) for x in inner.body[:-1] for n in ast.walk(x)):
+                continue
+            chain = None
+            for row in reversed(rows):
+                vals = row.elts if isinstance(st.target, ast.Tuple) else [row]
+                binds = {t.id: v for t, v in zip(tg, vals)}
+
+                class Sub(ast.NodeTransformer):
+                    def visit_Name(self, n, binds=binds):  # noqa: N802
+                        if isinstance(n.ctx, ast.Load) and n.id in binds:
+                            return ast.copy_location(_copy.deepcopy(binds[n.id]), n)
+                        return n
+
+                test = Sub().visit(_copy.deepcopy(inner.test))
+                body = [Sub().visit(_copy.deepcopy(x)) for x in inner.body[:-1]] or [ast.Pass()]
+                chain = ast.If(test=test, body=body, orelse=[chain] if chain is not None else [])
+            if chain is None:
+                continue
+            for n in ast.walk(chain):
+                ast.copy_location(n, st)
+            block[k] = ast.fix_missing_locations(chain)
+            changed = True
+    return new if changed else func
+
+
+def fold_sum_loops(func: ast.FunctionDef, keep=frozenset()) -> ast.FunctionDef:
+    """``acc = 0`` ; ``for x in it: acc = acc + x`` (or ``acc += x``) for a new local ``acc`` -> ``acc = sum(it)``
+    (the built-in performs exactly this left fold from 0)."""
+    import copy as _copy
+
+    changed = False
+    new = _copy.deepcopy(func)
+    for block in _blocks(new):
+        i = 0
+        while i < len(block) - 1:
+            st, lp = block[i], block[i + 1]
+            if (
+                isinstance(st, ast.Assign) and len(st.targets) == 1 and isinstance(st.targets[0], ast.Name) and st.targets[0].id not in keep
+                and isinstance(st.value, ast.Constant) and st.value.value == 0 and not isinstance(st.value.value, bool) and isinstance(st.value.value, int)
+                and isinstance(lp, ast.For) and not lp.orelse and isinstance(lp.target, ast.Name) and len(lp.body) == 1
+            ):
+                acc, x, b = st.targets[0].id, lp.target.id, lp.body[0]
+                ok = False
+                if isinstance(b, ast.AugAssign) and isinstance(b.op, ast.Add) and norm(b.target) == acc and norm(b.value) == x:
+                    ok = True
+                if isinstance(b, ast.Assign) and len(b.targets) == 1 and norm(b.targets[0]) == acc and isinstance(b.value, ast.BinOp) and isinstance(b.value.op, ast.Add) and norm(b.value.left) == acc and norm(b.value.right) == x:
+                    ok = True
+                later_x = any(isinstance(n, ast.Name) and n.id == x and isinstance(n.ctx, ast.Load) for y in block[i + 2 :] for n in ast.walk(y))
+                if ok and not later_x and not any(isinstance(n, ast.Name) and n.id == acc for n in ast.walk(lp.iter)):
+                    call = ast.Call(func=ast.Name(id="sum", ctx=ast.Load()), args=[lp.iter], keywords=[])
+                    block[i] = ast.fix_missing_locations(ast.copy_location(ast.Assign(targets=[ast.Name(id=acc, ctx=ast.Store())], value=call), lp))
+                    for n in ast.walk(block[i]):
+                        ast.copy_location(n, lp) if not hasattr(n, "lineno") else None
+                    del block[i + 1]
+                    changed = True
+                    continue
+            i += 1
     return ast.fix_missing_locations(new) if changed else func
 
 
@@ -1535,6 +1691,7 @@ class Program:
                 pinned_locals = {}
             # module-level constant tuples of exception classes used as `except NAME:`
             const_tuples: dict = {}
+            const_tables: dict = {}
             for m in self.modules.values():
                 counts: dict = {}
                 for st in m.tree.body:
@@ -1545,14 +1702,21 @@ class Program:
                 for st in m.tree.body:
                     if isinstance(st, ast.Assign) and len(st.targets) == 1 and isinstance(st.targets[0], ast.Name) and counts[st.targets[0].id] == 1 and isinstance(st.value, ast.Tuple) and st.value.elts and all(isinstance(e, (ast.Name, ast.Attribute)) for e in st.value.elts):
                         const_tuples.setdefault(m.name, {})[st.targets[0].id] = st.value
+                    if isinstance(st, ast.Assign) and len(st.targets) == 1 and isinstance(st.targets[0], ast.Name) and counts[st.targets[0].id] == 1 and isinstance(st.value, (ast.Tuple, ast.List)) and st.value.elts and all(isinstance(e, ast.Tuple) and all(isinstance(x, (ast.Name, ast.Attribute, ast.Constant)) for x in e.elts) for e in st.value.elts):
+                        const_tables.setdefault(m.name, {})[st.targets[0].id] = st.value
             for m in self.modules.values():
                 targets = list(m.functions.values())
                 for c in m.classes.values():
                     targets += list(c.methods.values()) + list(c.setters.values())
                 for f in targets:
                     keep_l = frozenset(pinned_locals.get(m.name, {}).get(f.qualname, ()))
+                    f.node = canon_ifexp_not(f.node)
+                    f.node = unroll_const_table_dispatch(f.node, const_tables.get(m.name, {}))
+                    f.node = expand_starred_tuple_args(f.node, keep=keep_l)
+                    f.node = hoist_leading_walrus(f.node)
                     f.node = expand_param_aliases(f.node, keep=keep_l)
                     f.node = fold_new_loop_built(f.node, keep=keep_l)
+                    f.node = fold_sum_loops(f.node, keep=keep_l)
                     f.node = expand_named_conditions(f.node, keep=keep_l)
                     f.node = inline_new_single_use_locals(f.node, keep=keep_l)
                     f.node = guard_continue_to_else(f.node)
